@@ -3,19 +3,15 @@
  * search.c is compiled from a scratch copy in which the definition `int vbi_search_next(...)' carries the return type
  * of its prototype (`vbi_search_status'); goto-cc rejects the mismatch, gcc does not (Ob(patch=...), one textual edit).
  *
- *   h_c17_walk     (search.c compiled with LAST_ROW = 3, i.e. a page slice of text rows 1..2 instead of 1..23: the page
- *                  geometry is irrelevant to the walk under the abstract matcher, and the row-23 version costs ~100 s of
- *                  symex PER VISITED PAGE because `first' becomes a 920-deep conditional)
- *                  walk + stop logic with an ABSTRACT matcher.  Real: vbi_search_new (start/stop set-up),
- *                  vbi_search_next, search_page_fwd / search_page_rev (stop tests, haystack construction, the calls
- *                  of the matcher, highlight -> continuation row/column).  Replaced:
+ *   h_c17_walk     walk + stop logic with an ABSTRACT matcher.  Real: vbi_search_new (start/stop set-up),
+ *                  vbi_search_next, search_page_fwd / search_page_rev up to the point where they format and match
+ *                  (stop tests, page-function filter, format call); from there c17_cut() (see below).  Replaced:
  *                    _vbi_cache_foreach_page  by a model that walks a symbolic population of <= NP cached pages in
  *                                             the documented order (cyclic (pgno, subno) order, `wrapped' once the
  *                                             page number wrapped); the real walk in cache.c belongs to C10;
  *                    vbi_format_vt_page       by "a blank 25 x 41 page carrying the page numbers";
- *                    ure_exec                 by the uninterpreted predicate match(page): one occurrence per
- *                                             matching page at a symbolic, fixed haystack position (so the real
- *                                             continuation logic "search the rest of the page first" is exercised);
+ *                    haystack/ure_exec/highlight by the uninterpreted predicate match(page): one occurrence per
+ *                                             matching page (c17_cut);
  *                    ure_compile/buffer       by dummies.
  *                  NCALLS successive vbi_search_next calls, direction symbolic per call, start page/subpage
  *                  symbolic (incl. VBI_ANY_SUBNO and hex page numbers), which of the NP pages are cached symbolic PER
@@ -140,9 +136,41 @@ int ure_exec(ure_dfa_t dfa, int flags, ucs2_t *text, unsigned long textlen, unsi
   V_ASSERT(c17_cur >= 0, "exec_after_format");
   c17_n_exec++;
   if (c17_hay_mode) { c17_hay_off = off; c17_hay_len = textlen; c17_hay_flags = flags; return 0; }
-  if (U[c17_cur].match && U[c17_cur].occ >= off && U[c17_cur].occ < (unsigned long) off + textlen) {
-    *ms = U[c17_cur].occ - (unsigned long) off;
-    *me = *ms + 1;
+  {
+#ifdef OCC
+    unsigned long occ = OCC;              /* literally concrete: a read through the symbolic page index would not fold */
+#else
+    unsigned long occ = U[c17_cur].occ;
+#endif
+    if (U[c17_cur].match && occ >= (unsigned long) off && occ < (unsigned long) off + textlen) {
+      *ms = occ - (unsigned long) off;
+      *me = *ms + 1;
+      return 1;
+    }
+  }
+  return 0;
+}
+
+/* Walk obligation: the scratch copy of search.c returns c17_cut(...) at the comment "To Unicode" of search_page_fwd /
+   search_page_rev, i.e. right after the stop tests, the page-function filter and the format call ("up to the point where
+   they format/match").  Haystack construction + ure_exec + highlight of that page are replaced by: one occurrence per
+   matching page; when the search RESUMES inside the page it found last (this == start and the continuation row/column
+   are not at their pass-start values) the rest of the page holds no further occurrence.  With everything real the
+   symbolic continuation position makes `first' / the highlighted cells symbolic and symex does not finish (measured:
+   > 280 s for NP = 2, 3 calls, even with text rows cut to 2 and --max-field-sensitivity-array-size 1100). */
+int c17_cut(vbi_search *s, cache_page *vtp, int this_key, int start_key, int dir)
+{
+  int i, idx = -1, resumed;
+  for (i = 0; i < NP; i++) if (vtp == &CP[i]) idx = i;
+  V_ASSERT(idx >= 0 && idx == c17_cur, "match_follows_format_of_the_same_page");
+  c17_n_exec++;
+  resumed = (this_key == start_key)
+         && (dir > 0 ? !(s->row[0] == FIRST_ROW && s->col[0] == 0) : !(s->row[1] == LAST_ROW + 1 && s->col[1] == 0));
+  if (U[idx].match && !resumed) {
+    /* what highlight() does to the search state: remember the page, continue after / before the occurrence */
+    s->start_pgno = vtp->pgno; s->start_subno = vtp->subno;
+    s->row[0] = FIRST_ROW; s->col[0] = 1;
+    s->row[1] = FIRST_ROW; s->col[1] = 0;
     return 1;
   }
   return 0;
